@@ -22,7 +22,7 @@ package controller
 
 //@ func (*DefaultFanController).getPwm
 //@   requires fans.fanWF(f.fan)
-//@   modifies f.fan.(*fans.HwMonFan).Pwm, f.fan.(*fans.FileFan).Pwm, f.fan.(*fans.CmdFan).Pwm, procWorld, started, lastReadFailed
+//@   modifies f.fan.(*fans.HwMonFan).Pwm, f.fan.(*fans.FileFan).Pwm, f.fan.(*fans.CmdFan).Pwm, procWorld, started, lastReadFailed, supportsResult
 
 //@ func (*DefaultFanController).setPwm
 //@   props C12
@@ -31,7 +31,7 @@ package controller
 //@   ensures[last] f.lastSetPwm != nil && *f.lastSetPwm == target
 //@   ensures[C12.others C01 C05] forall o int :: o != ref(f.fan) ==> pwmWrites[o] == old(pwmWrites)[o] && lastPwm[o] == old(lastPwm)[o]
 //@   ensures[C12.once C01 C05] pwmWrites[f.fan] == old(pwmWrites)[f.fan] || (pwmWrites[f.fan] == old(pwmWrites)[f.fan] + 1 && exists s :: nearestIn(distinct(f), s, target) && lastPwm[f.fan] == f.pwmMap[s])
-//@   modifies f.lastSetPwm, pwmWrites, lastPwm, fileInt, procWorld, started, lastReadFailed, f.fan.(*fans.HwMonFan).Pwm, f.fan.(*fans.FileFan).Pwm, f.fan.(*fans.CmdFan).Pwm
+//@   modifies f.lastSetPwm, pwmWrites, lastPwm, fileInt, procWorld, started, lastReadFailed, supportsResult, f.fan.(*fans.HwMonFan).Pwm, f.fan.(*fans.FileFan).Pwm, f.fan.(*fans.CmdFan).Pwm
 
 //@ func (*DefaultFanController).updateDistinctPwmValues
 //@   props C12
@@ -59,7 +59,7 @@ package controller
 //@   props C05
 //@   requires fans.fanWF(f.fan) && (f.pwmMap != nil ==> mapInv(f)) && (f.lastSetPwm != nil ==> util.inInt32(*f.lastSetPwm))
 //@   ensures f.stats.UnexpectedPwmValueCount >= old(f.stats.UnexpectedPwmValueCount)
-//@   modifies f.stats.UnexpectedPwmValueCount, f.fan.(*fans.HwMonFan).Pwm, f.fan.(*fans.FileFan).Pwm, f.fan.(*fans.CmdFan).Pwm, procWorld, started, lastReadFailed
+//@   modifies f.stats.UnexpectedPwmValueCount, f.fan.(*fans.HwMonFan).Pwm, f.fan.(*fans.FileFan).Pwm, f.fan.(*fans.CmdFan).Pwm, procWorld, started, lastReadFailed, supportsResult
 
 //@ func (*DefaultFanController).calculateTargetPwm
 //@   props C01 C02 C10
@@ -73,6 +73,9 @@ package controller
 //@   ensures[C01.maxconst C02 C05 C10] fans.fanMax(f.fan) == old(fans.fanMax(f.fan)) && f.pwmMap == old(f.pwmMap) && f.lastSetPwm == old(f.lastSetPwm)
 //@   ensures[C02.floor]  err == nil && fans.fanNeverStop(f.fan) ==> target >= old(floorOf(f))
 //@   ensures[C02.perm]   floorOf(f) >= old(floorOf(f))
+//@   ensures[C10.detect] err == nil && supportsResult[fans.FeatureRpmSensor] && fans.fanNeverStop(f.fan) && old(f.lastSetPwm) != nil && old(fans.rpmAvg(f.fan)) <= 0.0 && f.minPwmOffset == old(f.minPwmOffset) ==> target != old(*f.lastSetPwm)
+//@   ensures[C10.step]   f.minPwmOffset != old(f.minPwmOffset) ==> err == nil && f.minPwmOffset == old(f.minPwmOffset) + 1 && old(f.lastSetPwm) != nil && target == old(*f.lastSetPwm) + 1 && fans.rpmAvg(f.fan) == 1.0 && old(fans.rpmAvg(f.fan)) <= 0.0
+//@   ensures[C10.max]    err == ErrFanStalledAtMaxPwm && old(f.lastSetPwm) != nil ==> fans.fanNeverStop(f.fan) && old(f.lastSetPwm) != nil && old(*f.lastSetPwm) >= old(fans.fanMax(f.fan)) && old(fans.rpmAvg(f.fan)) <= 0.0
 //@   ensures[C02.raise]  f.minPwmOffset > old(f.minPwmOffset) ==> err == nil && old(f.lastSetPwm) != nil && target > old(*f.lastSetPwm) && floorOf(f) == old(floorOf(f)) + 1
 //@   ensures[nowrite C01 C02 C05 C10] pwmWrites == old(pwmWrites)
 //@   modifies f.minPwmOffset, f.stats.MinPwmOffset, f.stats.IncreasedMinPwmCount, f.stats.UnexpectedPwmValueCount
@@ -80,16 +83,16 @@ package controller
 //@   modifies f.fan.(*fans.FileFan).Rpm, f.fan.(*fans.FileFan).Pwm, f.fan.(*fans.CmdFan).Rpm, f.fan.(*fans.CmdFan).Pwm
 //@   modifies f.controlLoop.(*control_loop.DirectControlLoop).lastTime
 //@   modifies each(*curves.LinearSpeedCurve).Value, each(*curves.FunctionSpeedCurve).Value, each(*curves.PidSpeedCurve).Value
-//@   modifies each(*util.PidLoop).integral, each(*util.PidLoop).error, each(*util.PidLoop).lastTime, procWorld, started, lastReadFailed
+//@   modifies each(*util.PidLoop).integral, each(*util.PidLoop).error, each(*util.PidLoop).lastTime, procWorld, started, lastReadFailed, supportsResult
 
 //@ func trySetManualPwm
 //@   props C05
 //@   requires fans.fanWF(fan)
 //@   ensures[C05.nopwm C01] pwmWrites == old(pwmWrites)
-//@   modifies modeWrites, lastMode, fileInt, lastReadFailed
+//@   modifies modeWrites, lastMode, fileInt, lastReadFailed, supportsResult
 
 //@ func (*DefaultFanController).UpdateFanSpeed
-//@   props C01 C02 C05
+//@   props C01 C02 C05 C10
 //@   split f.fan
 //@   safety C09
 //@   requires ctrlInv(f) && mapInv(f)
@@ -97,11 +100,24 @@ package controller
 //@   ensures[C01.write] pwmWrites[f.fan] == old(pwmWrites)[f.fan] || (pwmWrites[f.fan] == old(pwmWrites)[f.fan] + 1 && f.lastSetPwm != nil && old(fans.fanMin(f.fan)) <= *f.lastSetPwm && *f.lastSetPwm <= old(fans.fanMax(f.fan)) && exists s :: nearestIn(distinct(f), s, *f.lastSetPwm) && lastPwm[f.fan] == f.pwmMap[s])
 //@   ensures[C01.byte]  (forall k :: k in f.pwmMap ==> 0 <= f.pwmMap[k] && f.pwmMap[k] <= 255) && pwmWrites[f.fan] != old(pwmWrites)[f.fan] ==> 0 <= lastPwm[f.fan] && lastPwm[f.fan] <= 255
 //@   ensures[C01.others] forall o int :: o != ref(f.fan) ==> pwmWrites[o] == old(pwmWrites)[o]
-//@   ensures[C01.inv C02 C05] ctrlInv(f) && mapInv(f)
+//@   ensures[C10.stop]  result != nil ==> pwmWrites == old(pwmWrites) && f.lastSetPwm == old(f.lastSetPwm)
+//@   ensures[C01.inv C02 C05 C10] ctrlInv(f) && mapInv(f)
 //@   modifies f.lastSetPwm, pwmWrites, lastPwm, modeWrites, lastMode, fileInt
 //@   modifies f.minPwmOffset, f.stats.MinPwmOffset, f.stats.IncreasedMinPwmCount, f.stats.UnexpectedPwmValueCount
 //@   modifies f.fan.(*fans.HwMonFan).RpmMovingAvg, f.fan.(*fans.HwMonFan).Pwm
 //@   modifies f.fan.(*fans.FileFan).Rpm, f.fan.(*fans.FileFan).Pwm, f.fan.(*fans.CmdFan).Rpm, f.fan.(*fans.CmdFan).Pwm
 //@   modifies f.controlLoop.(*control_loop.DirectControlLoop).lastTime
 //@   modifies each(*curves.LinearSpeedCurve).Value, each(*curves.FunctionSpeedCurve).Value, each(*curves.PidSpeedCurve).Value
-//@   modifies each(*util.PidLoop).integral, each(*util.PidLoop).error, each(*util.PidLoop).lastTime, procWorld, started, lastReadFailed
+//@   modifies each(*util.PidLoop).integral, each(*util.PidLoop).error, each(*util.PidLoop).lastTime, procWorld, started, lastReadFailed, supportsResult
+
+// ---- RPM monitor step and stall handling (C10) ---------------------------------------------------------
+//@ func (*DefaultFanController).measureRpm
+//@   props C10
+//@   split fan
+//@   requires fans.fanWF(fan) && same(f.fan, fan) && configuration.CurrentConfig.RpmRollingWindowSize >= 1 && configuration.CurrentConfig.RpmRollingWindowSize <= 1000000000
+//@   requires fin(fans.rpmAvg(fan)) && abs(real(fans.rpmAvg(fan))) <= 1.0e15
+//@   ensures[C10.cutoff] lastRpmRead == 0 && fans.rpmAvg(fan) > 0.0 ==> old(fans.rpmAvg(fan)) > 1.0
+//@   ensures[C10.nonneg] configuration.CurrentConfig.RpmRollingWindowSize >= 2 && lastRpmRead >= 0 && (old(fans.rpmAvg(fan)) == 0.0 || old(fans.rpmAvg(fan)) >= 1.0e-270) && lastRpmRead <= 1000000000 ==> fans.rpmAvg(fan) >= 0.0
+//@   ensures[C10.floorframe C02] floorOf(f) == old(floorOf(f)) && f.lastSetPwm == old(f.lastSetPwm) && pwmWrites == old(pwmWrites)
+//@   modifies f.fan.(*fans.HwMonFan).RpmMovingAvg, f.fan.(*fans.HwMonFan).Pwm, f.fan.(*fans.HwMonFan).Rpm, f.fan.(*fans.HwMonFan).FanCurveData, (*f.fan.(*fans.HwMonFan).FanCurveData)[_]
+//@   modifies f.fan.(*fans.FileFan).Rpm, f.fan.(*fans.FileFan).Pwm, f.fan.(*fans.CmdFan).Rpm, f.fan.(*fans.CmdFan).Pwm, procWorld, started, lastReadFailed, supportsResult, lastRpmRead
